@@ -1066,3 +1066,21 @@ Proof.
   - destruct (Ht k1 (or_introl eq_refl)) as [s ->]. simpl. rewrite app_nil_r. reflexivity.
   - rewrite (pick_nm_none_terms K _ Ht), (first_nt_none _ Ht). reflexivity.
 Qed.
+Lemma kind_spec_unique g x k1 k2 : kind_spec g x k1 -> kind_spec g x k2 -> k1 = k2.
+Proof.
+  destruct k1, k2; simpl; intros H1 H2; try reflexivity; exfalso.
+  - destruct H2 as [_ [y [Hy Hn]]]. apply H1. apply (nm_ref g x y Hy Hn).
+  - apply H1. apply nm_attrs. exact H2.
+  - destruct H1 as [_ [y [Hy Hn]]]. apply H2. apply (nm_ref g x y Hy Hn).
+  - destruct H1 as [H1 _]. congruence.
+  - apply H2. apply nm_attrs. exact H1.
+  - destruct H2 as [H2 _]. congruence.
+Qed.
+
+Theorem inh_by_sound g : exists s, determine_types g = Some s /\
+  forall z y, In y (inh s z) -> types s z = KAbstract /\ In y (rule_refs g z) /\ types s y <> KMatch.
+Proof.
+  destruct (kinds_correct g) as [s [H1 [_ H3]]]. exists s. split; [exact H1|].
+  intros z y Hy. destruct (H3 z y Hy) as [A [B C]]. split; [exact A|]. split; [exact B|].
+  apply is_match_false. exact C.
+Qed.
